@@ -367,10 +367,34 @@ class Machine:
         if not r.latlon:
             cands.append("dim")
         p = rng.choice(cands)
+        ub = sorted(q for q in r.user_bounds if q in ("var", "len_scale", "nugget", "anis")
+                    and (q != "anis" or r.dim > 1))
+        if ub and rng.random() < 0.4:
+            p = rng.choice(ub)   # bounds the user has set are tried more often
         return {"fault": "rejected_set", "param": p, "bad": self._bad_value(rng, p)}
 
     def _bad_value(self, rng, p):
         r = self.ref
+        ub = r.user_bounds.get(p if p != "len_scale_list" else "len_scale")
+        if ub is not None and p in ("var", "len_scale", "nugget", "anis") and rng.random() < 0.7:
+            # a perfectly ordinary positive value that only the USER's bounds exclude
+            out = []
+            if np.isfinite(ub[1]):
+                out.append(float(ub[1]) * rng.choice([1.5, 2.0]) + 0.25)
+            if ub[0] > 0:
+                out.append(float(ub[0]) * rng.choice([0.25, 0.5]))
+            if out:
+                bad = rng.choice(out)
+                if p == "anis":
+                    if r.dim == 1:
+                        return None
+                    v = [self._pick(rng, cm.ANIS_GRID, ub) for _ in range(r.dim - 1)]
+                    free = [i for i in range(len(v)) if not (r.latlon and i < 2)]
+                    if not free:
+                        return None
+                    v[rng.choice(free)] = bad
+                    return v if rng.random() < 0.7 or r.dim > 2 else bad
+                return bad
         if p in ("var", "var_raw", "len_scale", "integral_scale"):
             return rng.choice([-1.0, 0.0, -0.3])
         if p == "nugget":
